@@ -10,6 +10,7 @@ package main
 import (
 	"bytes"
 	"fmt"
+	"net"
 	"os"
 	"strconv"
 	"strings"
@@ -336,6 +337,7 @@ func scenarioRelay() int {
 		cases = append(cases, c)
 		if i%300 == 299 {
 			w.Net.Trim()
+			w.Net.TrimEgress()
 		}
 		if run.Violations() > 10 {
 			break
@@ -356,6 +358,9 @@ func scenarioRelay() int {
 	}
 	run.Observe("oversize_responses_sent_in_between", oversize)
 	run.Observe("responses_sent_a_second_time_byte_for_byte", resent)
+	run.Observe("egress_monitor_running", w.Net.Sniffing())
+	run.Observe("responses_whose_every_packet_on_the_loopback_device_was_checked", egressJudged)
+	run.Observe("packets_seen_by_the_egress_monitor", w.Net.SnifferPackets())
 	run.Observe("requests_routed_to_learned_peers_under_a_port_that_refuses", unreachable)
 	run.Observe("relays_per_path", relayed)
 	run.Observe("barriers", w.Barriers)
@@ -727,7 +732,40 @@ func viaDecodable(e string) bool {
 	return true
 }
 
+// judgeC02 = what the driver's sockets saw + what the egress monitor saw leave the proxy.
 func judgeC02(run *ev.Run, w *wire.World, c *relayCase, obs []*wire.Obs) bool {
+	ok := judgeC02Sockets(run, w, c, obs)
+	if !ok || c.kind != "response" || !w.EgressReady {
+		return ok
+	}
+	sv := w.Svcs[c.path.Svc]
+	relay, proto, ip, port, _, why := viaPopModel(w, sv, c.in.Get("via"))
+	if relay && net.ParseIP(ip) == nil {
+		return ok // a name nobody can resolve: nothing to compare a packet with
+	}
+	egressJudged++
+	var stray []string
+	for _, e := range w.Net.EgressForCase(c.id) {
+		if e.Req || !w.FromProxy(e) || w.ToProxy(e) {
+			continue
+		}
+		if !relay || e.Proto != proto || e.Dst != fmt.Sprintf("%s:%d", ip, port) {
+			stray = append(stray, fmt.Sprintf("%s %s -> %s (%d bytes)", e.Proto, e.Src, e.Dst, e.Len))
+		}
+	}
+	if len(stray) > 0 {
+		d := relayDetail(c, obs, "")
+		d["model"] = map[string]any{"relay": relay, "proto": proto, "ip": ip, "port": port, "why_not": why}
+		d["stray_packets"] = stray
+		run.Violation("the proxy sent the response somewhere else than the Via chain says (seen by the egress monitor on the loopback device)", d)
+		return false
+	}
+	return ok
+}
+
+var egressJudged int
+
+func judgeC02Sockets(run *ev.Run, w *wire.World, c *relayCase, obs []*wire.Obs) bool {
 	if c.kind != "response" {
 		run.Eval("")
 		return true
